@@ -930,7 +930,7 @@ public:
   bool VisitFunctionDecl(FunctionDecl* F) {
     if (!F->isThisDeclarationADefinition()) return true;
     if (F->isDependentContext() || F->getDescribedFunctionTemplate()) return true;
-    if (!X.underRoot(F->getLocation())) return true;
+    if (!X.underRoot(F->getLocation()) && !(!ExtraBody.empty() && X.wantBody(F))) return true;
     X.FN(F);
     return true;
   }
